@@ -294,6 +294,9 @@ func (g *Gen) verifyFunc(fn *ssa.Function, fc *FuncContract) (obs []*Obligation,
 		}
 	}()
 	for _, n := range fn.Blocks {
+		if n == fn.Recover {
+			continue
+		}
 		for _, in := range n.Instrs {
 			if _, ok := in.(*ssa.Return); ok {
 				c.retCountTotal++
@@ -549,6 +552,9 @@ func (c *FnCtx) assignOrdinals() {
 	}
 	var calls, rets, stores []ent
 	for _, b := range c.fn.Blocks {
+		if b == c.fn.Recover {
+			continue // only reachable through recovered panics: not modelled
+		}
 		for _, in := range b.Instrs {
 			switch x := in.(type) {
 			case *ssa.Call:
